@@ -390,6 +390,18 @@ func c07declSrc(pkgname string, decls []*c07ty, unsafe bool) string {
 	return b.String()
 }
 
+// buildDirect constructs the signature from go/types objects built here.
+func (s *c07sig) buildDirect() *gotypes.Signature {
+	mk := func(vs []c07var) *types.Tuple {
+		var xs []*types.Var
+		for _, v := range vs {
+			xs = append(xs, types.NewParam(token.NoPos, c07pkg, v.name, v.t.goType()))
+		}
+		return types.NewTuple(xs...)
+	}
+	return gotypes.NewSignature(c07pkg, types.NewSignatureType(nil, nil, nil, mk(s.params), mk(s.results), false))
+}
+
 // build constructs the real gotypes.Signature by one of three routes.
 func (s *c07sig) build(r *rng) error {
 	route := r.intn(3)
@@ -402,14 +414,7 @@ func (s *c07sig) build(r *rng) error {
 	}
 	switch route {
 	case 0: // go/types objects built directly
-		mk := func(vs []c07var) *types.Tuple {
-			var xs []*types.Var
-			for _, v := range vs {
-				xs = append(xs, types.NewParam(token.NoPos, c07pkg, v.name, v.t.goType()))
-			}
-			return types.NewTuple(xs...)
-		}
-		s.real = gotypes.NewSignature(c07pkg, types.NewSignatureType(nil, nil, nil, mk(s.params), mk(s.results), false))
+		s.real = s.buildDirect()
 		s.route = "direct"
 	case 1: // expression over builtin types
 		sig, err := gotypes.ParseSignature("func" + s.src())
@@ -1124,12 +1129,14 @@ var c07corpus = []string{
 	"func(a, b, c struct{ x int8; y int32 }, d int8) (e, f [3]int8, g int64)",
 	"func(x uintptr, b bool, f float32, g float64) (u uint, v uint8)",
 	"func(x struct{ b bool; s []struct{ a int } ; t string; c complex128; z [0]struct{ a int64 } })",
+	"func(x [4]uint32)", // witness of finding F3: Index(-1), At(-1)
 }
 
 func init() {
 	register("c07", "gotypes signature layout / component navigation vs model, asmdecl acceptors, go/types sizes", func(args []string) error {
 		f := newStdFlags("c07")
 		neg := f.fs.Bool("neg", false, "emit only negative-index / negative-selector requests")
+		chunk := f.fs.Uint64("chunk", 0, "chunk number mixed into the seed")
 		if err := f.fs.Parse(args); err != nil {
 			return err
 		}
@@ -1139,7 +1146,7 @@ func init() {
 		}
 		defer o.close()
 		e := &c07emitter{o: o, stats: map[string]int{}, neg: *neg}
-		g := &c07gen{r: newRng(*f.seed), stats: e.stats}
+		g := &c07gen{r: newRng(*f.seed + *chunk*0x51ed27), stats: e.stats}
 		for _, expr := range c07corpus {
 			sig, err := gotypes.ParseSignature(expr)
 			if err != nil {
